@@ -1,12 +1,14 @@
 import PV.Model.UThread
 import PV.Spec.UThread
+import PV.Spec.UThreadSteps
 import PV.Driver.Util
 /-! driver for the thread family (C05).  One answer line per op:
 
     `r=<result> L=<live handles> F=<handles freed by this op> D=<notifier calls of this op> ob=<other live blocks> N=<native TLS calls of this op>`
 
-`r L F D` are API-visible and are also computed by the spec (`PV.Spec.UThread`); when the spec
-answers differently the line carries ` SPECDIFF <spec's r L F D>`.  `ob` (name blocks + native-key
+`r L F D` are API-visible: the model's come from `obsM` (two consecutive machine states), the spec's from
+`specStep` over the SAME events (`PV.Spec.UThreadSteps`); when they differ the line carries
+` SPECDIFF <spec's r L F D>` — which `PV.UThread.spec_refinement` (Props/C05) proves never happens.  `ob` (name blocks + native-key
 blocks alive) and `N` are internal observables of the model only.  A harness-level op is a short
 sequence of model events (e.g. `create` = `createBegin; createEnd`; a TLS call on a key without a
 native key = `keyCreate; keyCas; setLocal`).  Ops the model does not enable, and ops outside the
@@ -30,11 +32,8 @@ structure St where
   pend : List Pend := []
   /-- keys whose first use was a real (barrier) race: the number of native keys created is not determined -/
   raced : List Nat := []
-
-inductive Res
-  | ok (m : State) (native : List String)
-  | bad
-  | fault (e : Err)
+  /-- `p_uthread_shutdown` has been called: no further op is accepted -/
+  shut : Bool := false
 
 /-- a native key is shown as `<PUThreadKey id>.<index among that key's native keys>` (`?` for a raced key) -/
 def showN (raced : List Nat) (s : State) (n : Nat) : String :=
@@ -80,16 +79,34 @@ def nativeOf (raced : List Nat) (s : State) (e : Ev) (s' : State) : List String 
   | .exit t _ => lib t
   | _ => []
 
+inductive Res
+  | ok (m : State) (native : List String) (obs : List PV.UThreadSpec.Obs)
+  | bad
+  | fault (e : Err)
+
 def runEvs (s : State) (es : List Ev) (raced : List Nat := []) : Res :=
-  let rec go (s : State) (acc : List String) : List Ev → Res
-    | [] => .ok s acc
+  let rec go (s : State) (acc : List String) (obs : List PV.UThreadSpec.Obs) : List Ev → Res
+    | [] => .ok s acc obs
     | e :: r =>
       if ¬ Permitted s e then .bad else
       match step s e with
       | .error .notEnabled => .bad
       | .error x => .fault x
-      | .ok s' => go s' (acc ++ nativeOf raced s e s') r
-  go s [] es
+      | .ok s' => go s' (acc ++ nativeOf raced s e s') (obs ++ [PV.UThreadSpec.obsM s e s']) r
+  go s [] [] es
+
+/-- the reference over the same events -/
+def runSpec (sp : PV.UThreadSpec.S) : List Ev → PV.UThreadSpec.S × List PV.UThreadSpec.Obs
+  | [] => (sp, [])
+  | e :: r =>
+    let x := PV.UThreadSpec.specStep sp e
+    let y := runSpec x.1 r
+    (y.1, x.2 :: y.2)
+
+/-- the answer of a harness-level op = the answers of its events put together -/
+def combine (l : List PV.UThreadSpec.Obs) : PV.UThreadSpec.Obs :=
+  { ret := l.flatMap (·.ret), live := (l.getLast?.map (·.live)).getD [],
+    freed := l.flatMap (·.freed), dtor := Sp.sortD (l.flatMap (·.dtor)) }
 
 /-- the slow path of `pp_uthread_get_tls_key` when the key has no native key yet -/
 def needKey (s : State) (t : Nat) (k : Nat) : List Ev :=
@@ -101,23 +118,24 @@ def fmtList (l : List Nat) : String := ",".intercalate (l.map toString)
 def fmtD (l : List (Nat × Nat × Nat)) : String :=
   ";".intercalate (l.map fun x => toString x.1 ++ ":" ++ toString x.2.1 ++ ":" ++ toString x.2.2)
 
-def liveOf (s : State) : List Nat := (List.range s.nH).filter fun h => ¬ (s.hdl h).freed
 def otherBlocks (s : State) : Nat :=
   ((List.range s.nH).filter fun h => (s.hdl h).named ∧ ¬ (s.hdl h).freed).length +
   ((List.range s.nN).filter fun n => ¬ (s.nkey n).blockFreed).length
 
-def apiPart (r : String) (live freed : List Nat) (d : List (Nat × Nat × Nat)) : String :=
-  "r=" ++ r ++ " L=" ++ fmtList live ++ " F=" ++ fmtList freed ++ " D=" ++ fmtD (Sp.sortD d)
+/-- how the returned ids / values of an op are shown -/
+def fmtR (kind : String) (ret : List Int) : String :=
+  match kind, ret with
+  | "create", [t, h] => "T" ++ toString t ++ ",H" ++ toString h
+  | "spawn", [t] => "T" ++ toString t
+  | "keynew", [k] => "K" ++ toString k
+  | "current", [h] => "H" ++ toString h
+  | "value", [v] => toString v
+  | "noexit", _ => "noexit"
+  | "none", [] => "-"
+  | _, _ => "?"
 
-/-- print the answer for an op that took the model from `m` to `m'` and the spec to `sp'` with outputs `o` -/
-def answer (m m' : State) (native : List String) (rM : String) (sp' : PV.UThreadSpec.S) (o : Sp.Out) (rS : String)
-    (showNative : Bool := true) : String :=
-  let freed := m'.freeLog.drop m.freeLog.length
-  let d := (m'.dtorLog.drop m.dtorLog.length).filter (·.2.1 ≠ 0)
-  let a := apiPart rM (liveOf m') freed d
-  let b := apiPart rS sp'.live o.freed o.dtor
-  a ++ " ob=" ++ toString (otherBlocks m') ++ " N=" ++ (if showNative then ",".intercalate native else "~")
-    ++ (if a = b then "" else " SPECDIFF " ++ b)
+def apiPart (kind : String) (o : PV.UThreadSpec.Obs) : String :=
+  "r=" ++ fmtR kind o.ret ++ " L=" ++ fmtList o.live ++ " F=" ++ fmtList o.freed ++ " D=" ++ fmtD o.dtor
 
 def faultText : Err → String
   | .useAfterFree h => "fault uaf H" ++ toString h
@@ -125,13 +143,8 @@ def faultText : Err → String
   | .ub w => "fault ub " ++ w
   | .notEnabled => "bad-op"
 
-def lastJoin (m : State) : String := match m.joinLog.getLast? with | some x => toString x.2.2 | none => "?"
-def lastGet (m : State) : String := match m.getLog.getLast? with | some x => toString x.2.2 | none => "?"
-def lastCur (m : State) : String := match m.curLog.getLast? with | some x => "H" ++ toString x.2 | none => "?"
-
 def isPending (s : St) (t : Nat) : Bool := s.pend.any (·.t = t)
 
-/-- finish a TLS call on the model and the spec; returns (events, spec update) -/
 def tlsOp (what : String) (t : Nat) (k : Nat) (v : Nat) : Option Ev :=
   match what with
   | "set" => some (.setLocal t k v)
@@ -141,32 +154,51 @@ def tlsOp (what : String) (t : Nat) (k : Nat) (v : Nat) : Option Ev :=
   | "start" => some (.start t)
   | _ => none
 
-def specTls (sp : PV.UThreadSpec.S) (what : String) (t : Nat) (k : Nat) (v : Nat) : PV.UThreadSpec.S × Sp.Out × String :=
-  match what with
-  | "set" => (Sp.setLocal sp t k v, {}, "-")
-  | "replace" => let r := Sp.replaceLocal sp t k v; (r.1, r.2, "-")
-  | "get" => (sp, {}, toString (sp.cell t k))
-  | "current" => let r := Sp.current sp t; (r.1, {}, "H" ++ toString r.2)
-  | _ => (sp, {}, "-")
-
+def kindOf (what : String) : String := if what = "get" then "value" else if what = "current" then "current" else "none"
 def keyOf (what : String) (k : Nat) : Nat := if what = "current" ∨ what = "start" then 0 else k
 
 def step (s : St) (toks : List String) : IO (St × Bool) := do
   let bad : IO (St × Bool) := do IO.println "bad-op"; return (s, false)
-  let fin (r : Res) (rM : St → State → String) (sp' : PV.UThreadSpec.S) (o : Sp.Out) (rS : String)
-      (pend' : List Pend := s.pend) (showNative := true) (status : String := "") (raced' : List Nat := s.raced) : IO (St × Bool) := do
-    match r with
+  -- run the events of one op on the model and on the spec, print the line
+  let fin (es : List Ev) (kind : String) (pend' : List Pend := s.pend) (showNative := true) (status : String := "")
+      (raced' : List Nat := s.raced) : IO (St × Bool) := do
+    match runEvs (raced := raced') s.m es with
     | .bad => bad
     | .fault e => IO.println (faultText e); return (s, true)
-    | .ok m' nat =>
-      IO.println (answer s.m m' (if status = "" then nat else status :: nat) (rM s m') sp' o rS showNative)
-      return ({ s with m := m', sp := sp', pend := pend', raced := raced' }, false)
+    | .ok m' nat obs =>
+      let sp := runSpec s.sp es
+      let a := apiPart kind (combine obs)
+      let b := apiPart kind (combine sp.2)
+      let nat := if status = "" then nat else status :: nat
+      IO.println (a ++ " ob=" ++ toString (otherBlocks m') ++ " N=" ++ (if showNative then ",".intercalate nat else "~")
+        ++ (if a = b then "" else " SPECDIFF " ++ b))
+      return ({ s with m := m', sp := sp.1, pend := pend', raced := raced' }, false)
   let m := s.m
+  if s.shut ∧ toks ≠ ["reset"] then bad else
   match toks with
   | ["reset"] => IO.println "ok"; return ({}, false)
-  | ["spawn"] =>
-    let r := Sp.spawn s.sp
-    fin (runEvs (raced := s.raced) m [.spawn]) (fun _ _ => "T" ++ toString m.nT) r.1 {} ("T" ++ toString r.2)
+  | [a, "shutdown"] =>
+    -- the end of a history (not an event of the machine): `PV.UThread.shutdown`, theorem `init_shutdown_neutral_threads`
+    match a.toNat? with
+    | none => bad
+    | some a =>
+      if ¬ s.pend.isEmpty then bad else
+      match shutdown m a with
+      | .error .notEnabled => bad
+      | .error e => IO.println (faultText e); return (s, true)
+      | .ok m' =>
+        let r := shutdownResolve m
+        let sh := showN s.raced r.1 r.2
+        let nat := (if (m.key 0).published.isNone then ["kc" ++ sh] else []) ++ ["gs" ++ sh] ++
+          (if r.1.tls a r.2 ≠ 0 then ["ss" ++ sh ++ ":0"] else []) ++ (if localFreeDeletesKey then ["kd" ++ sh] else [])
+        let o : PV.UThreadSpec.Obs := { live := PV.UThreadSpec.liveOf m', freed := m'.freeLog.drop m.freeLog.length }
+        let spr := PV.UThreadSpec.shutdown s.sp a
+        let os : PV.UThreadSpec.Obs := { live := spr.1.live, freed := spr.2.freed }
+        let x := apiPart "none" o
+        let y := apiPart "none" os
+        IO.println (x ++ " ob=" ++ toString (otherBlocks m') ++ " N=" ++ ",".intercalate nat ++ (if x = y then "" else " SPECDIFF " ++ y))
+        return ({ s with m := m', sp := spr.1, shut := true }, false)
+  | ["spawn"] => fin [.spawn] "spawn"
   | ["race", k, t1, v1, t2, v2] =>
     match k.toNat?, t1.toNat?, v1.toNat?, t2.toNat?, v2.toNat? with
     | some k, some t1, some v1, some t2, some v2 =>
@@ -175,8 +207,7 @@ def step (s : St) (toks : List String) : IO (St × Bool) := do
         | some _ => []
         | none => [.keyCreate t1 k, .keyCreate t2 k, .keyCas t1 k, .keyCas t2 k]
       let rk := if pre.isEmpty then s.raced else k :: s.raced
-      fin (runEvs (raced := rk) m (pre ++ [.setLocal t1 k v1, .setLocal t2 k v2])) (fun _ _ => "-")
-        (Sp.setLocal (Sp.setLocal s.sp t1 k v1) t2 k v2) {} "-" s.pend false "" rk
+      fin (pre ++ [.setLocal t1 k v1, .setLocal t2 k v2]) "none" s.pend false "" rk
     | _, _, _, _, _ => bad
   | a :: rest =>
     match a.toNat? with
@@ -186,63 +217,50 @@ def step (s : St) (toks : List String) : IO (St × Bool) := do
       match rest with
       | "create" :: jd :: nm =>
         if (jd ≠ "j" ∧ jd ≠ "d") ∨ (nm ≠ [] ∧ nm ≠ ["n"]) then bad else
-        let r := Sp.create s.sp (jd = "j")
-        fin (runEvs (raced := s.raced) m [.createBegin a (jd = "j") (nm = ["n"]), .createEnd a])
-          (fun _ _ => "T" ++ toString m.nT ++ ",H" ++ toString m.nH) r.1 {} ("T" ++ toString r.2.1 ++ ",H" ++ toString r.2.2)
-      | ["start"] =>
-        fin (runEvs (raced := s.raced) m (needKey m a 0 ++ [.start a])) (fun _ _ => "-") s.sp {} "-"
+        fin [.createBegin a (jd = "j") (nm = ["n"]), .createEnd a] "create"
+      | ["start"] => fin (needKey m a 0 ++ [.start a]) "none"
       | ["set", k, v] =>
         match k.toNat?, v.toNat? with
-        | some k, some v => fin (runEvs (raced := s.raced) m (needKey m a k ++ [.setLocal a k v])) (fun _ _ => "-") (Sp.setLocal s.sp a k v) {} "-"
+        | some k, some v => fin (needKey m a k ++ [.setLocal a k v]) "none"
         | _, _ => bad
       | ["replace", k, v] =>
         match k.toNat?, v.toNat? with
-        | some k, some v =>
-          let r := Sp.replaceLocal s.sp a k v
-          fin (runEvs (raced := s.raced) m (needKey m a k ++ [.replaceLocal a k v])) (fun _ _ => "-") r.1 r.2 "-"
+        | some k, some v => fin (needKey m a k ++ [.replaceLocal a k v]) "none"
         | _, _ => bad
       | ["get", k] =>
         match k.toNat? with
-        | some k => fin (runEvs (raced := s.raced) m (needKey m a k ++ [.getLocal a k])) (fun _ m' => lastGet m') s.sp {} (toString (s.sp.cell a k))
+        | some k => fin (needKey m a k ++ [.getLocal a k]) "value"
         | _ => bad
-      | ["current"] =>
-        let r := Sp.current s.sp a
-        fin (runEvs (raced := s.raced) m (needKey m a 0 ++ [.current a])) (fun _ m' => lastCur m') r.1 {} ("H" ++ toString r.2)
+      | ["current"] => fin (needKey m a 0 ++ [.current a]) "current"
       | ["exit", c] =>
         match c.toInt? with
         | some c =>
           match (m.thr a).handle with
-          | some _ => fin (runEvs (raced := s.raced) m (needKey m a 0 ++ [.exit a c])) (fun _ _ => "-") (Sp.exit s.sp a c) {} "-"
+          | some _ => fin (needKey m a 0 ++ [.exit a c]) "none"
           | none =>   -- a thread the library did not create: the harness calls `current` (to learn the block), then `exit`, which returns
-            let r := Sp.current s.sp a
-            fin (runEvs (raced := s.raced) m (needKey m a 0 ++ [.current a, .exit a c])) (fun _ _ => "noexit") (Sp.exit r.1 a c) {} "noexit"
+            fin (needKey m a 0 ++ [.current a, .exit a c]) "noexit"
         | none => bad
-      | ["return"] => fin (runEvs (raced := s.raced) m [.ret a]) (fun _ _ => "-") s.sp {} "-"
-      | ["end"] =>
-        let r := Sp.threadEnd s.sp a
-        fin (runEvs (raced := s.raced) m [.threadEnd a]) (fun _ _ => "-") r.1 r.2 "-"
+      | ["return"] => fin [.ret a] "none"
+      | ["end"] => fin [.threadEnd a] "none"
       | ["ref", h] =>
         match h.toNat? with
-        | some h => fin (runEvs (raced := s.raced) m [.ref a h]) (fun _ _ => "-") (Sp.ref s.sp h) {} "-"
+        | some h => fin [.ref a h] "none"
         | none => bad
       | ["unref", h] =>
         match h.toNat? with
-        | some h => let r := Sp.drop s.sp h; fin (runEvs (raced := s.raced) m [.unref a h]) (fun _ _ => "-") r.1 { freed := r.2 } "-"
+        | some h => fin [.unref a h] "none"
         | none => bad
       | ["join", h] =>
         match h.toNat? with
-        | some h => fin (runEvs (raced := s.raced) m [.join a h]) (fun _ m' => lastJoin m') s.sp {} (toString (Sp.join s.sp h))
+        | some h => fin [.join a h] "value"
         | none => bad
       | ["keynew", n] =>
-        if n ≠ "n" ∧ n ≠ "x" then bad else
-        let r := Sp.keyNew s.sp (n = "n")
-        fin (runEvs (raced := s.raced) m [.localNew a (n = "n")]) (fun _ _ => "K" ++ toString m.nK) r.1 {} ("K" ++ toString r.2)
+        if n ≠ "n" ∧ n ≠ "x" then bad else fin [.localNew a (n = "n")] "keynew"
       | ["keyfree", k] =>
         match k.toNat? with
         | some k =>
           -- freeing a key while a thread is parked inside a call on it is a misuse of the TLS API (refused)
-          if s.pend.any (·.k = k) then bad else
-          fin (runEvs (raced := s.raced) m [.localFree a k]) (fun _ _ => "-") (Sp.keyFree s.sp k) {} "-"
+          if s.pend.any (·.k = k) then bad else fin [.localFree a k] "none"
         | none => bad
       | ["kbegin", what, k, v] =>
         match k.toNat?, v.toNat? with
@@ -257,12 +275,8 @@ def step (s : St) (toks : List String) : IO (St × Bool) := do
             else if what ≠ "start" ∧ ¬ canAct m a then bad
             else if ¬ k < m.nK ∨ (k = 0 ∧ what ≠ "current" ∧ what ≠ "start") then bad
             else match (m.key k).published with
-            | some _ =>
-              let r := specTls s.sp what a k v
-              fin (runEvs (raced := s.raced) m [e]) (fun _ m' => if what = "get" then lastGet m' else if what = "current" then lastCur m' else "-")
-                r.1 r.2.1 r.2.2 s.pend true "done"
-            | none =>
-              fin (runEvs (raced := s.raced) m [.keyCreate a k]) (fun _ _ => "-") s.sp {} "-" ({ t := a, what := what, k := k, v := v } :: s.pend) true "atcas"
+            | some _ => fin [e] (kindOf what) s.pend true "done"
+            | none => fin [.keyCreate a k] "none" ({ t := a, what := what, k := k, v := v } :: s.pend) true "atcas"
         | _, _ => bad
       | ["kcas"] =>
         match s.pend.find? (·.t = a) with
@@ -272,10 +286,7 @@ def step (s : St) (toks : List String) : IO (St × Bool) := do
           | none => bad
           | some e =>
             let won := (m.key p.k).published.isNone
-            let r := specTls s.sp p.what a p.k p.v
-            fin (runEvs (raced := s.raced) m [.keyCas a p.k, e])
-              (fun _ m' => if p.what = "get" then lastGet m' else if p.what = "current" then lastCur m' else "-")
-              r.1 r.2.1 r.2.2 (s.pend.filter (·.t ≠ a)) true (if won then "won" else "lost")
+            fin [.keyCas a p.k, e] (kindOf p.what) (s.pend.filter (·.t ≠ a)) true (if won then "won" else "lost")
       | _ => bad
   | _ => bad
 
